@@ -104,6 +104,25 @@ namespace c02
     reg().convs.push_back(c);
   }
 
+  // registers the cross-type clone To.clone(From, mode)
+  template<typename To, typename From>
+  void reg_xclone()
+  {
+    if constexpr(!std::is_same<To, From>::value)
+    {
+      XClone x; x.from = key_of<From>(); x.to = key_of<To>();
+      x.fn = [](const AnyM& s, int mode, int variant) -> P
+      {
+        const auto& src = static_cast<const Holder<From>&>(s);
+        std::unique_ptr<Holder<To>> h(new Holder<To>());
+        if(variant == 1) h->m.clone(src.m, CloneMode::Deep);   // non-empty target: previous arrays must be released
+        h->m.clone(src.m, CloneMode(mode));
+        return P(h.release());
+      };
+      reg().xclones.push_back(x);
+    }
+  }
+
   template<typename M, typename MakeFn>
   void reg_maker(MakeFn fn)
   {
@@ -117,7 +136,7 @@ namespace c02
   void reg_type_convs(const std::string& fmt)
   {
     const std::string op = fmt + ".convert<-" + fmt;
-#define C02_TC(D1, I1, D2, I2) reg_conv<F<D1, I1>, F<D2, I2>>(op, false);
+#define C02_TC(D1, I1, D2, I2) reg_conv<F<D1, I1>, F<D2, I2>>(op, false); reg_xclone<F<D1, I1>, F<D2, I2>>();
 #define C02_TC4(D1, I1) C02_TC(D1, I1, float, std::uint32_t) C02_TC(D1, I1, float, std::uint64_t) C02_TC(D1, I1, double, std::uint32_t) C02_TC(D1, I1, double, std::uint64_t)
     C02_TC4(float, std::uint32_t) C02_TC4(float, std::uint64_t) C02_TC4(double, std::uint32_t) C02_TC4(double, std::uint64_t)
 #undef C02_TC4
